@@ -2792,6 +2792,10 @@ _FIRST = "        for task in ru.as_list(tasks):\n            buckets[task['orig
 _DEDUP = "                if task['description'].get('raptor_id'):\n                    if task not in buckets['raptor']:\n                        buckets['raptor'].append(task)\n"
 _SECOND = "        if state != rps.AGENT_EXECUTING:\n            for task in ru.as_list(tasks):\n" + _DEDUP
 _RSU = "            self.publish(rpc.STATE_PUBSUB, {'cmd': 'raptor_state_update',\n                                            'arg': buckets['raptor']})\n"
+_PWERR = "                self.publish(rpc.AGENT_UNSCHEDULE_PUBSUB, task)\n\n                self.advance_tasks(task, rps.FAILED, publish=True, push=False)\n"
+_WARB = "                with self._check_lock:\n                    if tid not in self._tasks:\n                        # task was canceled before, nothing to do\n                        continue\n                    try:\n                        del self._tasks[tid]\n                    except KeyError:\n                        pass\n"
+_CARB = "        with self._check_lock:\n            if tid not in self._tasks:\n                return\n            try:\n                del self._tasks[tid]\n            except KeyError:\n                pass\n"
+_NCOLL = "            with self._tasks_lock:\n\n                for task in self._tasks:\n                    if task['deadline'] <= now: to_finish.append(task)\n                    else                      : to_continue.append(task)\n\n                self._tasks = to_continue\n"
 _GUARD = "        if state != rps.AGENT_EXECUTING:\n"
 _LOOP2 = "        for task in ru.as_list(tasks):\n            if task['description'].get('raptor_id'):\n                if task not in buckets['raptor']:\n                    buckets['raptor'].append(task)\n"
 _LMOUT = "        except OSError:\n            # lost race: task is already gone, we ignore this\n            self._log.debug('task already gone: %s', task['uid'])\n"
@@ -2961,6 +2965,20 @@ MUTATIONS = [
         (_L, _LMOUT, _LMOUT.replace('except OSError:', 'except (ProcessLookupError, ChildProcessError):'))]),
     dict(name='R07.13 launcher: everything but ESRCH is raised again', rules=('R07.13',), edits=[
         (_L, _LMOUT, "        except OSError as e:\n            if e.errno != 3:\n                raise\n" + _GONE)]),
+    dict(name='R07.1 Popen.work: FAILED advance gets the bulk instead of the task (C07-i1)', rules=('R07.1',), edits=[
+        (_P, _PWERR, _PWERR.replace("advance_tasks(task,", "advance_tasks(tasks,"))]),
+    dict(name='R07.1 NOOP.work: FAILED advance gets the bulk instead of the task', rules=('R07.1',), edits=[
+        (_N, _PWERR, _PWERR.replace("advance_tasks(task,", "advance_tasks(tasks,"))]),
+    dict(name='R07.1 Popen.work: a launch error unschedules the bulk instead of the task', rules=('R07.1',), edits=[
+        (_P, _PWERR, _PWERR.replace("PUBSUB, task)", "PUBSUB, tasks)"))]),
+    dict(name='R07.1 NOOP.work: a launch error unschedules the bulk instead of the task', rules=('R07.1',), edits=[
+        (_N, _PWERR, _PWERR.replace("PUBSUB, task)", "PUBSUB, tasks)"))]),
+    dict(name='R07.2 watcher: ownership test replaced by pop(tid, None), continue lost (C07-i4)', rules=('R07.2',), edits=[
+        (_P, _WARB, "                with self._check_lock:\n                    # might have been canceled before\n                    self._tasks.pop(tid, None)\n")]),
+    dict(name='R07.2 cancel_task: ownership test replaced by pop(tid, None), return lost', rules=('R07.2',), edits=[
+        (_P, _CARB, "        with self._check_lock:\n            self._tasks.pop(tid, None)\n")]),
+    dict(name='R07.2 watcher: result of the atomic pop is looked at but nothing follows from it', rules=('R07.2',), edits=[
+        (_P, _WARB, "                with self._check_lock:\n                    gone = self._tasks.pop(tid, None)\n                if gone is None:\n                    pass\n")]),
     dict(name='R07.14 start guard of the raptor copy dropped, loop dedented (C07-i3)', rules=('R07.14',), edits=[
         (_E, _SECOND, _LOOP2)]),
     dict(name='R07.14 start guard with flipped polarity', rules=('R07.14',), edits=[
@@ -3118,4 +3136,6 @@ SILENT = [
         (_E, _SECOND, "        if state == rps.AGENT_EXECUTING:\n            pass\n        else:\n" + _LOOP2.replace('\n    ', '\n        ').replace('        for', '            for', 1))]),
     dict(name='advance_tasks: start guard per task as early continue', edits=[
         (_E, _SECOND, "        started = state == rps.AGENT_EXECUTING\n        for t in ru.as_list(tasks):\n            if started:\n                continue\n            if not t['description'].get('raptor_id'):\n                continue\n            if t not in buckets['raptor']:\n                buckets['raptor'].append(t)\n")]),
+    dict(name='NOOP collector: list swapped out under the lock, scanned unlocked, rest merged back under the lock', edits=[
+        (_N, _NCOLL, "            with self._tasks_lock:\n                tasks, self._tasks = self._tasks, list()\n\n            for task in tasks:\n                if task['deadline'] <= now: to_finish.append(task)\n                else                      : to_continue.append(task)\n\n            with self._tasks_lock:\n                self._tasks.extend(to_continue)\n")]),
 ]
